@@ -2,10 +2,11 @@
    Property theorems only.  cpp_layouts is what clang++-14 / g++ make of the headers in the working tree,
    py_layouts what probing the working tree's Python pack()/unpack() observed (Generated/, rewritten every run);
    layout_exceptions is the committed exception table.  Specifications: Models/LayoutM.v, Models/PackingM.v. *)
-From Coq Require Import Arith List String Bool Sorted.
-From FEC Require Import Models.PackingM Models.LayoutM Models.LayoutTables Proofs.PackingP Proofs.LayoutP Proofs.LayoutTablesP
-     Generated.LayoutCpp Generated.LayoutPyProbe Generated.LayoutExc.
+From Coq Require Import Arith ZArith List String Bool Sorted.
+From FEC Require Import Models.PackingM Models.LayoutM Models.LayoutValuesM Models.LayoutTables Proofs.PackingP Proofs.LayoutP Proofs.LayoutTablesP
+     Generated.LayoutCpp Generated.LayoutPyProbe Generated.LayoutExc Generated.LayoutValues.
 Import ListNotations.
+Open Scope nat_scope.
 
 (* the comparison, as computed: for every way the library reads a payload — unpack(buffer, message_version=MESSAGE_VERSION),
    unpack(buffer) with the default version, and FusionEngineDecoder.on_data() on the framed message — every struct's probe
@@ -27,6 +28,16 @@ Theorem C02_layouts_agree_forall : forall path tbl, In (path, tbl) py_layout_pat
   forall p q, In (p, q) (combine py_layouts tbl) -> same_fixed p q = true.
 Proof. exact layouts_agree_forall. Qed.
 Print Assumptions C02_layouts_agree_forall.
+
+(* Same interpretation, not only same byte ranges.  For every leaf element of every struct (nested structs flattened), every
+   test value and every call path: the number written little-endian at the element's C++ offset is the number found at the
+   element's Python path, times the tabulated scale (within 2^-40 relative); the Python value set and packed is found back at
+   the C++ offset with no other byte changed; array attributes given in C order, Fortran order, as transposed / strided /
+   block views put element [k] at the C++ offset of element [k].  (value_agrees: Models/LayoutValuesM.v.)  This is what sees
+   swapped words inside a merged member, a wrong byte order, a wrong scale, a transposed matrix. *)
+Theorem C02_values_agree : forall r, In r value_rows -> value_agrees r.
+Proof. exact values_agree_forall. Qed.
+Print Assumptions C02_values_agree.
 
 (* README, Message Packing, claim 1: packed (members back to back from offset 0, no implicit padding) and aligned(4)
    (sizeof = total rounded up to a multiple of 4, alignof = 4) — for every struct. *)
@@ -62,7 +73,9 @@ Definition ex_tail := repeat (ex_byte [] []) 8.
 Definition ex_ps (b0 b1 b2 b3 : pbyte) (sz : nat) := mkPstruct "S" "m.S" (Some sz) (Some sz) (Some sz) ["a"; "b"] ([b0; b1; b2; b3] ++ ex_tail).
 Definition ex_E := mkExc [] [] [] [].
 Example C02_nonvacuous :
-  cpp_layouts <> [] /\ py_layouts <> [] /\ List.length py_layout_paths = 3 /\ (exists path, In (path, py_layouts) py_layout_paths) /\
+  cpp_layouts <> [] /\ py_layouts <> [] /\ value_rows <> [] /\
+  value_ok (mkVrow "S" "a" "unpack" 1000%Z 1%Z 1%Z 1%Z 500000000%Z 1%Z) = false /\ value_ok (mkVrow "S" "a" "unpack" 1000%Z 1%Z 1%Z 128%Z 125%Z 16%Z) = true /\
+  List.length py_layout_paths = 3 /\ (exists path, In (path, py_layouts) py_layout_paths) /\
   forallb (fun s => forallb (fun m => Nat.ltb 0 (ct_size (m_type m))) (s_members s)) cpp_layouts = true /\
   struct_agree [ex_cs] ex_E ex_cs (ex_ps (ex_byte ["a"] [0]) (ex_byte ["b"] [1]) (ex_byte [] []) (ex_byte [] []) 4) = true /\
   struct_agree [ex_cs] ex_E ex_cs (ex_ps (ex_byte ["b"] [0]) (ex_byte ["a"] [1]) (ex_byte [] []) (ex_byte [] []) 4) = false /\
@@ -70,5 +83,6 @@ Example C02_nonvacuous :
   struct_agree [ex_cs] ex_E ex_cs (ex_ps (ex_byte ["a"] [0]) (ex_byte ["b"] [1]) (ex_byte ["b"] [2]) (ex_byte [] []) 4) = false /\
   struct_agree [ex_cs] ex_E ex_cs (ex_ps (ex_byte ["a"] [0]) (ex_byte ["b"] [1]) (ex_byte [] []) (ex_byte [] []) 5) = false /\
   struct_agree [ex_cs] ex_E ex_cs (ex_ps (ex_byte ["a"] [0]) (ex_byte [] []) (ex_byte [] []) (ex_byte [] []) 4) = false.
-Proof. split; [discriminate|]. split; [discriminate|]. split; [exact three_paths|]. split; [exact reference_is_a_path|].
+Proof. split; [discriminate|]. split; [discriminate|]. split; [exact value_rows_nonempty|]. split; [reflexivity|]. split; [reflexivity|].
+  split; [exact three_paths|]. split; [exact reference_is_a_path|].
   split; [exact members_nonempty_b|]. vm_compute. repeat split. Qed.
